@@ -411,8 +411,14 @@ macro_rules! inst {
     };
 }
 
-// calibration
-inst!(c18_pa_fixed3, 2, 2, Some(true), [(0, TRY, 0), (1, TRY, 0), (0, REL, 0)]);
-inst!(c18_pd_npr, 2, 2, Some(true), [(0, NEW, 0), (0, POLL, 0), (1, REL, 0)]);
-inst!(c18_pe_npr_any, 2, 2, Some(true), [(0, NEW, 0), (0, POLL, 0), (1, REL, 0), (ANYT, ANY, ANYT)]);
-inst!(c18_pf_any1, 2, 2, None, [(ANYT, ANY, ANYT)]);
+// Instances whose control skeleton avoids `Acquire` futures: with a queued `Acquire` (Arc<Waiter>, Waker,
+// VecDeque<Arc<Waiter>>) CBMC's propositional post-processing exhausts 16 GB even for the fully concrete
+// skeleton [NEW, POLL, REL] (measured; DESIGN.md 2.1). Permit counts, initial permits and fairness are symbolic.
+inst!(c18_try_try_rel, 2, 2, None, [(0, TRY, 0), (1, TRY, 0), (0, REL, 0)]);
+inst!(c18_rel_try_try, 2, 2, None, [(1, REL, 0), (0, TRY, 0), (1, TRY, 0)]);
+inst!(c18_try_close_try, 2, 2, None, [(0, TRY, 0), (1, CLOSE, 0), (0, TRY, 0)]);
+inst!(c18_try_rel_sleep_try, 2, 2, None, [(0, TRY, 0), (0, REL, 0), (1, SLEEP, 0), (0, TRY, 0)]);
+// kept for native validation and for the record (beyond the solver's memory):
+inst!(c18_new_poll_rel, 2, 2, Some(true), [(0, NEW, 0), (0, POLL, 0), (1, REL, 0)]);
+inst!(c18_new_poll_rel_any, 2, 2, Some(true), [(0, NEW, 0), (0, POLL, 0), (1, REL, 0), (ANYT, ANY, ANYT)]);
+inst!(c18_any1, 2, 2, None, [(ANYT, ANY, ANYT)]);
